@@ -78,6 +78,16 @@ def run_action(ex, db, ctor, ctor_args, execute, tx=None, ctx=None):
         client = reldb.make_client(ex, db)
         fn = PyFunc(lambda ex_, a: ex_.call_named(execute, [act, a[0], a[1]]), 'Execute')
         err = ex.call_named('(*' + ENT + '.Client).DoCtxTx', [client, ctx, None, fn])
+        fs = ex.env.get('fault_state')
+        if fs is not None and ex.env.get('retry_after_fault'):
+            fs['first_err'] = err
+            fs['mid'] = db.snapshot()
+            fs['mid_events'] = len(ex.events)
+            fs['mid_nows'] = len(stdlib.clock(ex)['nows'])
+            if fs.get('fired') is not None and err is not None:
+                # retry the very same action object, now without a fault
+                fs['disabled'] = True
+                err = ex.call_named('(*' + ENT + '.Client).DoCtxTx', [client, ctx, None, fn])
         return act, None, err
     if tx is None:
         tx = reldb.begin_tx(ex, db)
